@@ -38,6 +38,14 @@ for _m, _ens in {
              from_property="only in their own thread (thread-local writes never touch the shared layer)")
 
 contract(
+    E + "InternalEnvironDict.pop", "C11", params=dict(self=IED, key=Str, args=Opaque("args")), modifies=["self._local", "self._global"],
+    raises={"KeyError": True}, returns=VAL,
+    ensures={"an-overridden-key-is-popped-from-the-thread-layer-only": "implies(old(key in self._local), key not in self._local and result == old(self._local[key]) and self._global == old(self._global))",
+             "any-other-key-is-popped-from-the-SHARED-layer": "implies(not old(key in self._local), self._local == old(self._local) and key not in self._global)"},
+    ensures_exc={"nothing-changes-when-it-raises": "self._local == old(self._local) and self._global == old(self._global)"},
+    from_property="only in their own thread (pop is NOT a thread-local operation for a key without an override: a caller that must stay thread-local may not use it)",
+)
+contract(
     E + "InternalEnvironDict.__setitem__", "C11", params=dict(self=IED, key=Str, value=VAL), modifies=["self._local", "self._global"],
     locals={"local": LAYER},
     ensures={"overridden-keys-stay-thread-local": "implies(old(key in self._local), self._local[key] == value and self._global == old(self._global))",
